@@ -27,8 +27,45 @@ def optNat (a : Args) (k : String) : Option (Option Nat) := do
   let v ← a.get? k
   if v = "-" then pure none else v.toNat?.map some
 
+/-- `v34:<alg>` | `v5` | `v6` -/
+def skKind (a : Args) (k : String) : Option SkKind := do
+  let v ← a.get? k
+  match v.splitOn ":" with
+  | ["v34", n] => (n.toNat?).map SkKind.v34
+  | ["v5"] => some .v5
+  | ["v6"] => some .v6
+  | _ => none
+
 def handle (op : String) (a : Args) : Option String :=
   match op with
+  | "edata_admit" => do
+    let kind ← a.get? "kind"
+    let sk ← skKind a "sk"
+    let keyLen ← a.nat "keylen"
+    match kind with
+    | "sed" => pure (sedAdmit ((← a.nat "legacy") == 1) sk keyLen).cls
+    | "seipd1" => pure (seipd1Admit sk keyLen).cls
+    | "seipd2" => pure (seipd2AdmitSk (← a.nat "sym") (← a.nat "aead") (← a.nat "cs") sk keyLen).cls
+    | "gnupg" => pure (gnupgAdmit ((← a.nat "optin") == 1) (← a.nat "sym") (← a.nat "aead") sk keyLen).cls
+    | _ => none
+  | "gnupg_open" => do
+    pure (gnupgOpen ((← a.nat "optin") == 1) (← a.nat "sym") (← a.nat "aead") (← skKind a "sk") (← a.nat "keylen")
+      (← optBytes a "opened")).cls
+  | "rsa_verify" => do
+    pure (rsaVerify (← a.nat "ks") (← a.nat "sig") ((← a.nat "valid") == 1)).cls
+  | "sig_shape" => do
+    let alg ← (match (← a.get? "alg") with
+      | "rsa" => some SigAlg.rsa | "field" => some .field | "dsa" => some .dsa | "native" => some .native | _ => none)
+    let native := (← a.get? "value") == "native"
+    pure (sigShape alg (← a.nat "unit") native (← a.natList "lens") ((← a.nat "valid") == 1)).cls
+  | "lit_calls" => do
+    -- steps=<bufferEmpty><fillOk><short> triples as digits
+    let v ← a.get? "steps"
+    let steps ← (if v = "-" then some [] else (v.splitOn ",").mapM fun w =>
+      match w.toList with
+      | [x, y, z] => some (x == '1', y == '1', z == '1')
+      | _ => none)
+    pure (litCalls litFillInnerCur .body steps).cls
   | "pkesk_decode" => do
     let typ ← a.nat "typ"
     let dk ← a.bytes "dk"
